@@ -2,7 +2,7 @@
 from __future__ import annotations
 
 from .. import families, checks, pipeline
-from ..core import Prog, witness_tasks
+from ..core import Prog, witness_tasks, text_id
 from ..views import PyView
 
 PROP = "C01"
@@ -19,11 +19,26 @@ ASSUME = [
 ]
 
 
+# models whose quantities are called like the temporaries of sympy.cse (x0, x1, ...) and that repeat sub-expressions
+CSE_MODELS = [
+    "parameters(k=0.5, g=2.0)\nstates(x0=1.0, x1=2.0, x2=0.5)\n"
+    "a0 = exp(k*x0) + g*exp(k*x0)\na1 = exp(k*x0)*x1 + (g + x1)*(g + x1)\n"
+    "dx0_dt = a0 - (g + x1)*(g + x1)\ndx1_dt = a1*x2 + exp(k*x0)\ndx2_dt = -x2*exp(k*x0) + (g + x1)*(g + x1)*x2\n",
+    "parameters(x3=0.5, x4=2.0)\nstates(V=1.0, m=2.0)\n"
+    "x5 = (V + x4)*(V + x4) + sin(V + x4)\nx6 = x5*m + sin(V + x4)/(V + x4)\n"
+    "dV_dt = -x6 + x3*(V + x4)\ndm_dt = x5 - m*(V + x4)*(V + x4)\n",
+]
+
+
 def tasks(tier, seed):
     P = families.value_programs(tier, seed)
     names = ["lorentz.ode", "fitzhughnagumo.ode", "beeler_reuter_1977.ode"] if tier == "quick" else None
     P += families.corpus(names)
-    return [dict(p, opts={}) for p in P] + witness_tasks(PROP)
+    out = [dict(p, opts={}) for p in P]
+    # options of CodeGenerator.rhs / monitor_values that get_code does not expose: use_cse (documented flag)
+    for t in CSE_MODELS:
+        out.append({"family": "CSE", "id": text_id(t), "text": t, "opts": {"use_cse": True}})
+    return out + witness_tasks(PROP)
 
 
 def work(task):
@@ -31,7 +46,11 @@ def work(task):
     m, ode = checks.load_all(prog, task["text"])
     if ode is None:
         return prog.result()
-    code = checks.generate(prog, "numpy|get_code", pipeline.gen_py, ode)
+    if task["opts"].get("use_cse"):
+        code = checks.generate(prog, "numpy|CodeGenerator.rhs(use_cse=True)", pipeline.gen_py_generator, ode,
+                               rhs_kwargs={"use_cse": True}, monitor_kwargs={"use_cse": True})
+    else:
+        code = checks.generate(prog, "numpy|get_code", pipeline.gen_py, ode)
     if code is None:
         return prog.result()
     try:
